@@ -27,7 +27,7 @@ func NewHierarchyFilter(delimiter []byte, maxLevels int, splitInput bool) *Hiera
 }
 
 func (s *HierarchyFilter) Filter(input analysis.TokenStream) analysis.TokenStream {
-	rv := make(analysis.TokenStream, 0, s.maxLevels)
+	rv := make(analysis.TokenStream, 0, len(input))
 
 	var soFar [][]byte
 	for _, token := range input {
